@@ -47,8 +47,8 @@ WRONG = {
     "TBool": ["yes", 1, [True], None, 0],
     "TOptString": [5, True, ["x"], {"a": 1}],
     "TString": [3, None, ["."], False],
-    "TOptSeq": [5, True, "abc", {"a": 1}],
-    "TStrSeq": [5, [1, 2], None, True, ["a", 3]],
+    "TOptSeq": [5, True, "abc", {"a": 1}, ["x", 3]],
+    "TStrSeq": [5, [1, 2], None, True, ["a", 3], {"=": 1, "-": 2}],
     "TOptFilename": [5, ["x"], True],
 }
 
@@ -64,7 +64,7 @@ def yenc(v):
         return [3]
     if isinstance(v, list):
         return [4, [yenc(x) for x in v]]
-    return [5]
+    return [5, [str(k) for k in v]] if isinstance(v, dict) else [5, []]
 
 
 def gen_case(rng, options):
@@ -308,12 +308,21 @@ def run(rep, model, tier, seed, broken=()):
         rep.coverage["extraction_crosschecked"] = chk
         if bad:
             rep.violation(dict(kind="extraction-crosscheck", detail=str(bad)[:500]), no_input=True)
+        # witnesses of repaired findings: the value of the wrong type must now be rejected
+        for kf in core.load_known():
+            if kf["property"] == "C16" and kf["status"] == "fixed":
+                w = json.loads((core.VERIF / kf["witness"]).read_text())
+                argv, cwd, spath, status, captured = run_impl(w["case"], root)
+                rep.dist("fixed_finding_witnesses")
+                if status.split(":")[0] == "ok":
+                    rep.violation(dict(kind="settings: a value of the wrong type is accepted again (%s)" % kf["id"],
+                                       argv=argv, case=w["case"], status=status))
         # known findings
         for kf in core.load_known():
             if kf["property"] == "C16" and kf["status"] == "known":
                 w = json.loads((core.VERIF / kf["witness"]).read_text())
                 argv, cwd, spath, status, captured = run_impl(w["case"], root)
-                if status == "ok" and settings_view(captured[0][1], options)["input.exclude_filters"] == w["expect"]:
+                if status == "ok" and settings_view(captured[0][1], options)[w.get("option", "input.exclude_filters")] == w["expect"]:
                     rep.known(kf["what"])
                     rep.coverage["known_findings_reconfirmed"] = rep.coverage.get("known_findings_reconfirmed", 0) + 1
     finally:
